@@ -12,6 +12,7 @@ Only property theorems live here (helper lemmas: `Lemmas/Labels*.lean`, `Lemmas/
 -/
 import PdfVerif.Lemmas.Labels
 import PdfVerif.Lemmas.Outline
+import PdfVerif.Lemmas.NameTree
 
 namespace PdfVerif.Props.C17
 open PdfVerif PdfVerif.Labels PdfVerif.Gen.LabelTables
@@ -145,5 +146,72 @@ example :
   decide +kernel
 
 end Outline
+
+/-! ## Name trees and named destinations (ISO 32000-1 7.9.6, 12.3.2.3) -/
+
+section NameTree
+open PdfVerif.NameTree PdfVerif.Spec.NameTree PdfVerif.Lemmas.NameTree
+
+/-- `lookup_name` on ANY conforming name tree (any depth and fan-out; Limits on every node but
+the root — or on the root as well —, bounding the keys below it, siblings separated): the result
+is the value associated with the key in the in-order flattening, and `KeyError` for an absent
+key.  By mutual induction over nodes and kid lists. -/
+theorem C17_nametree (t : Node) (hwf : wf true t = true) (key : Key) :
+    lookupName (some t) (.bytes key) =
+      match assoc (flatten t) key with
+      | some v => .found v
+      | none => .keyError := by
+  have g := lookup_good key true t hwf
+  cases ha : assoc (flatten t) key with
+  | some v =>
+    have := (g.1 v (mem_of_assoc ha)).1
+    simp [lookupName, this]
+  | none =>
+    rcases g.2 (not_mem_of_assoc_none ha) with h | ⟨h, _⟩ <;> simp [lookupName, h]
+
+/-- `get_dest`: a string is looked up in the name tree, a name in the catalog's `Dests`
+dictionary; everything else is `PDFDestinationNotFound`. -/
+theorem C17_dest (tree : Option Node) (dests : Option (List (Key × Int))) (key : QKey)
+    (hdom : Spec.NameTree.domain tree dests = true) :
+    getDest tree dests key = Spec.NameTree.dest tree dests key := by
+  cases key with
+  | bytes k =>
+    cases tree with
+    | none => simp [getDest, lookupName, Spec.NameTree.dest]
+    | some t =>
+      have hwf : wf true t = true := by
+        simp only [Spec.NameTree.domain, Bool.and_eq_true] at hdom
+        exact hdom.1
+      have h := C17_nametree t hwf k
+      cases ha : assoc (flatten t) k with
+      | some v => rw [ha] at h; simp [getDest, h, Spec.NameTree.dest, ha]
+      | none => rw [ha] at h; simp [getDest, h, Spec.NameTree.dest, ha]
+  | name n =>
+    have hl : lookupName tree (.name n) = .keyError := by cases tree <;> rfl
+    cases dests with
+    | none => simp [getDest, hl, Spec.NameTree.dest]
+    | some d =>
+      simp only [getDest, hl, Spec.NameTree.dest, Option.bind_some]
+      have : assocName d n = assoc d n := rfl
+      rw [this]
+      cases assoc d n <;> rfl
+
+/-- Non-vacuity: a three-level tree (root without Limits, an intermediate node, two leaves) is
+conforming; present keys are found, absent ones (below, between, above, a prefix) are not. -/
+example :
+    let leaf1 : Node := .node (some ([97], [99])) (some [([97], 1), ([99], 2)]) []
+    let leaf2 : Node := .node (some ([101], [103, 0])) (some [([101], 3), ([103, 0], 4)]) []
+    let t : Node := .node none none [.node (some ([97], [103, 0])) none [leaf1, leaf2]]
+    wf true t = true
+    ∧ getDest (some t) none (.bytes [99]) = .value 2
+    ∧ getDest (some t) none (.bytes [103, 0]) = .value 4
+    ∧ getDest (some t) none (.bytes [98]) = .notFound
+    ∧ getDest (some t) none (.bytes [100]) = .notFound
+    ∧ getDest (some t) none (.bytes [103]) = .notFound
+    ∧ getDest (some t) none (.bytes []) = .notFound
+    ∧ getDest (some t) (some [([102, 111, 111], 9)]) (.name [102, 111, 111]) = .value 9 := by
+  decide +kernel
+
+end NameTree
 
 end PdfVerif.Props.C17
